@@ -106,7 +106,7 @@ verif_harness! {
         }
     }
 }
-//@ harness name=tdes_ede3_new_checked prop=C13 tier=quick bits=192 desc="TdesEde3::new_checked(k) is Err <=> weak_key_test(k) is Err, and on Ok its state equals new(k)'s; all 2^192 keys"
+//@ harness name=tdes_ede3_new_checked prop=C13 tier=thorough mem=24 est=900 bits=192 desc="TdesEde3::new_checked(k) is Err <=> weak_key_test(k) is Err, and on Ok its state equals new(k)'s; all 2^192 keys"
 verif_harness! {
     name: tdes_ede3_new_checked,
     bytes: 24,
